@@ -1,7 +1,7 @@
-\* exhaustive: Gen/Enc on 11 grids up to 3x3 and 2x4 (uniform, non-uniform, origins (5,2), (-1,-2)), k = 1..3; solve loop on grids up to 2x2 with every occupancy in {0, 1/2, 1}^cells.  Largest integer: 2 * 100 * 4 cells < 2^31
+\* exhaustive: Gen/Enc on 7 grids up to 3x3 and 2x4 (uniform, non-uniform, origin (3,-1)), k = 1..3; solve loop on grids up to 2x2 with every occupancy in {0, 1/2, 1}^cells.  Largest integer: 2 * 100 * 4 cells < 2^31
 SPECIFICATION Spec
 CONSTANTS
-  GRIDS <- QuickGrids
+  GRIDS <- QuickMcGrids
   SGRIDS <- McSolveGrids
   KMAX = 3
   DEN = 2
@@ -21,6 +21,8 @@ INVARIANT EncSound
 INVARIANT EncComplete
 INVARIANT SolveMeetsProperty
 INVARIANT LoopOptimal
+INVARIANT TableIsObj
+INVARIANT FastIsTable
 INVARIANT LoopNoShapes
 PROPERTY BoundGrows
 PROPERTY StrictlyGrows
